@@ -242,3 +242,31 @@ def repo() -> Repo:
     if _REPO is None:
         _REPO = Repo()
     return _REPO
+
+
+def exec_generated(src: str, filename: str, symbolic=True):
+    """exec a generated parser module; `from peg_parser.subheader import ...` resolves to the loaded (symbolic=True) or the
+    unmodified (symbolic=False) runtime.  Returns the module namespace dict."""
+    rp = repo()
+    ns = rp.sym if symbolic else rp.real
+    saved = {k: v for k, v in sys.modules.items() if k == "peg_parser" or k.startswith("peg_parser.")}
+    for k in saved:
+        del sys.modules[k]
+    try:
+        pkg = types.ModuleType("peg_parser")
+        pkg.__path__ = [f"{rp.path}/peg_parser"]
+        sys.modules["peg_parser"] = pkg
+        for m in MODS:
+            sys.modules[f"peg_parser.{m}"] = getattr(ns, m)
+            setattr(pkg, m, getattr(ns, m))
+        tree = ast.parse(src)
+        if symbolic:
+            tree = _Rewriter().visit(tree)
+            ast.fix_missing_locations(tree)
+        g = {"__name__": "symx_generated", "__vin__": chars.vin, "__vjoin__": chars.vjoin, "__vmeth__": chars.vmeth}
+        exec(compile(tree, filename, "exec"), g)
+        return g
+    finally:
+        for k in [k for k in sys.modules if k == "peg_parser" or k.startswith("peg_parser.")]:
+            del sys.modules[k]
+        sys.modules.update(saved)
